@@ -643,6 +643,118 @@ def inst_item(ex, st, fr, args, kwargs):
     return [(st, "ok", o)]
 
 
+# python set of strings built by add(): characteristic function (D-SET)
+STRSET = tm.arr_sort(STR, BOOL)
+
+
+def m_emptyset(ex, st, fr, args, kwargs):
+    if args or kwargs:
+        return m_set(ex, st, fr, args, kwargs)      # set(x): the label-set model above
+    ex.used_models.add("D-SET")
+    o = VObj("PySet")
+    return [(st.set(o, "arr", VT(tm.constarr(STRSET, tm.FALSE))), "ok", o)]
+
+
+def km_set_contains(ex, st, fr, self, args, kwargs):
+    (x,) = args
+    if not (isinstance(x, VT) and x.t.sort == STR):
+        raise Unsupported("set membership of %r" % (x,))
+    return [(st, "ok", VT(tm.select(st.get(self, "arr").t, x.t)))]
+
+
+def km_set_add(ex, st, fr, self, args, kwargs):
+    (x,) = args
+    if not (isinstance(x, VT) and x.t.sort == STR):
+        raise Unsupported("set.add of %r" % (x,))
+    return [(st.set(self, "arr", VT(tm.store(st.get(self, "arr").t, x.t, tm.TRUE))), "ok", NONE)]
+
+
+M.KIND_METHODS[("PySet", "__contains__")] = km_set_contains
+M.KIND_METHODS[("PySet", "add")] = km_set_add
+M.ASSUMPTIONS["D-SET"] = M.ASSUMPTIONS.get("D-SET", "") + "; set() is empty, add(x) adds x, `in` is membership (hash/eq of str: exact text)"
+
+_prev_builtin2 = MocloModels.builtin
+
+
+def _builtin2(self, name):
+    if name == "set":
+        return VModel("set", m_emptyset)
+    return _prev_builtin2(self, name)
+
+
+MocloModels.builtin = _builtin2
+
+
+def fs_listing(exts):
+    """the sequence of directory entries filterdir('/') yields for the patterns *.<ext>, ext in exts (a constant of
+    the file system and of the pattern list)"""
+    return tm.app("fs_listing:" + ",".join(exts), tm.seq_sort(INT))
+
+
+def fname(e):
+    return tm.app("fs_entry_name", STR, e)
+
+
+def km_fs_filterdir(ex, st, fr, self, args, kwargs):
+    """D-FS: filterdir('/', files=['*.e1', '*.e2', ...], exclude_dirs=['*']) yields each root-level file whose name
+    matches a pattern exactly once (facts: see listing_facts)"""
+    ex.used_models.add("D-FS")
+    path = args[0] if args else kwargs.get("path")
+    files = kwargs.get("files")
+    excl = kwargs.get("exclude_dirs")
+    if not (isinstance(path, VT) and tm.is_const(path.t) and tm.cval(path.t) == "/"):
+        raise Unsupported("filterdir on a path other than '/'")
+    if not isinstance(excl, VList) or [tm.cval(x.t) for x in st.get(excl, "items") if isinstance(x, VT) and tm.is_const(x.t)] != ["*"]:
+        raise Unsupported("filterdir without exclude_dirs=['*']")
+    if not isinstance(files, VList):
+        raise Unsupported("filterdir(files=%r)" % (files,))
+    pats = []
+    for x in st.get(files, "items"):
+        if not (isinstance(x, VT) and tm.is_const(x.t)):
+            raise Unsupported("filterdir with a symbolic pattern")
+        pat = tm.cval(x.t)
+        if not pat.startswith("*.") or any(c in pat[2:] for c in "*?[]./"):
+            raise Unsupported("filterdir pattern %r is not of the form *.<ext>" % pat)
+        pats.append(pat[2:])
+    F = fs_listing(pats)
+    st = st.assume(*listing_facts(F, pats))
+    ex.models.elem_kind = "FsEntry"
+    return [(st, "ok", VT(F, "list"))]
+
+
+def listing_facts(F, exts):
+    """D-FS about the listing F for the extensions exts"""
+    i, j, nm_ = tm.V("i_", INT), tm.V("j_", INT), tm.V("nm_", STR)
+    n = tm.seqlen(F)
+    has_ext = lambda nm: tm.or_(*[tm.and_(tm.eq(tm.app("path_ext", STR, nm), tm.S("." + e)),
+                                           tm.eq(nm, tm.concat(tm.app("path_stem", STR, nm), "." + e))) for e in exts])
+    return [
+        # each file once: entries are pairwise distinct files, i.e. have pairwise distinct names
+        tm.forall([i, j], tm.implies(tm.and_(tm.le(0, i), tm.lt(i, j), tm.lt(j, n)),
+                                     tm.ne(fname(tm.seqnth(F, i)), fname(tm.seqnth(F, j))))),
+        # every entry is a root-level file whose name is <stem>.<ext> for a listed extension
+        tm.forall_range(i, 0, n, tm.and_(has_ext(fname(tm.seqnth(F, i))), tm.app("fs_isfile", BOOL, fname(tm.seqnth(F, i))),
+                                         tm.not_(tm.contains(fname(tm.seqnth(F, i)), "/")))),
+        # ... and every such file is listed (fs_index: where)
+        tm.forall([nm_], tm.implies(tm.and_(tm.app("fs_isfile", BOOL, nm_), tm.not_(tm.contains(nm_, "/")), has_ext(nm_)),
+                                    tm.and_(tm.le(0, tm.app("fs_index", INT, nm_)), tm.lt(tm.app("fs_index", INT, nm_), n),
+                                            tm.eq(fname(tm.seqnth(F, tm.app("fs_index", INT, nm_))), nm_)))),
+    ]
+
+
+def _from_elem_fs(self, ex, st, t):
+    if t.sort == INT and getattr(self, "elem_kind", None) == "FsEntry":
+        o = VObj("FsEntry")
+        st.set_inplace(o, "ident", VT(t))
+        st.set_inplace(o, "name", VT(fname(t)))
+        return o
+    return _prev_fe_fs(self, ex, st, t)
+
+
+_prev_fe_fs = MocloModels.from_elem
+MocloModels.from_elem = _from_elem_fs
+
+M.KIND_METHODS[("FSAbs", "filterdir")] = km_fs_filterdir
 M.KIND_METHODS[("FSAbs", "isfile")] = km_fs_isfile
 M.KIND_METHODS[("FSAbs", "open")] = km_fs_open
 M.INSTANTIATE["Item"] = inst_item
